@@ -333,7 +333,7 @@ def read_progress(path):
         return None
 
 
-def make_replayer(binary_for_config, tier):
+def make_replayer(binary_for_config, tier, extra_args=()):
     """Replay = run the single case alone, twice; must fail with the same clause both times."""
     def replayer(target, clause, idx, config):
         binary = binary_for_config(config)
@@ -341,7 +341,7 @@ def make_replayer(binary_for_config, tier):
             oks = 0
             for _ in range(2):
                 try:
-                    p = subprocess.run([binary, '--tier', tier, '--only', '%s#%s' % (target, idx)],
+                    p = subprocess.run([binary, '--tier', tier, '--only', '%s#%s' % (target, idx)] + list(extra_args),
                                        capture_output=True, timeout=120)
                     if p.returncode != 0 or b'DONE' not in p.stdout:
                         oks += 1
@@ -350,7 +350,7 @@ def make_replayer(binary_for_config, tier):
             return oks == 2
         hits = 0
         for _ in range(2):
-            p = subprocess.run([binary, '--tier', tier, '--only', '%s#%s' % (target, idx)],
+            p = subprocess.run([binary, '--tier', tier, '--only', '%s#%s' % (target, idx)] + list(extra_args),
                                capture_output=True, timeout=600)
             for line in p.stdout.decode('utf-8', 'replace').splitlines():
                 f = line.split('\t')
